@@ -226,6 +226,32 @@ def neutral_changes(g, rng, ir):
             N.append(("aux-value+type:" + k, lambda cont=cont, k=k: cont.aux_data.__setitem__(k, g.AuxData("changed", "string"))))
     if len(ir.modules) >= 2:
         N.append(("module-order", lambda: ir.modules.reverse()))
+
+    def reinsert_edges():
+        es = list(ir.cfg)
+        rng.shuffle(es)
+        ir.cfg.clear()
+        ir.cfg.update(es)
+    N.append(("cfg-insertion-order", reinsert_edges))
+
+    def reinsert_children():
+        for m in ir.modules:
+            for coll in (m.sections, m.symbols, m.proxies):
+                xs = list(coll)
+                rng.shuffle(xs)
+                for x in xs:
+                    coll.discard(x)
+                for x in xs:
+                    coll.add(x)
+            for s_ in m.sections:
+                for coll in [s_.byte_intervals] + [b.blocks for b in s_.byte_intervals]:
+                    xs = list(coll)
+                    rng.shuffle(xs)
+                    for x in xs:
+                        coll.discard(x)
+                    for x in xs:
+                        coll.add(x)
+    N.append(("children-insertion-order", reinsert_children))
     return N
 
 
